@@ -366,7 +366,7 @@ mutual
         match evalRv f v s with
         | .ok (x, s1) => (.normal, s1.assign n x)
         | .error o => (o, s)
-      | .defMacro n v => (.normal, { s with vm := { s.vm with constants := s.vm.constants.put n v } })
+      | .defMacro _ _ => (.normal, s)      -- a macro acts at compile time only (see `Vm.execInstr`)
       | .defRoutine n ps body =>
         -- a definition takes effect for the whole script (routines are extracted at load
         -- time); executing it does nothing
